@@ -1,14 +1,43 @@
 /-
   SpecKitV.Drv.ExtTimeShift — driver operations of the generated region `TimeShift` (extension point: `dispatch op` returns
   `some handler` for the operations this file serves).  Mathlib-free.
+
+  `gentshift order <data…> <shifts…>`   the TRANSLATED `dsp.timeshift` (Gen.timeshift, regenerated from the source each run) at Float:
+                                        `NONE` if it raises, else `n` followed by the `n` output samples
+  `gendfshift <col…> fs seconds`         the TRANSLATED per-column action of `dsp.df_timeshift` (Gen.df_timeshift_column)
+  `gendfmeta`                            `order | numeric kinds` as translated from df_timeshift
 -/
 import SpecKitV.Drv.Base
+import SpecKitV.Gen.TimeShift
 
 namespace Drv.ExtTimeShift
 open Drv
 
+def showOpt (r : Option (Arr Float)) : String :=
+  match r with
+  | none => "NONE"
+  | some a => if a.n = 0 then "0" else s!"{a.n} " ++ joinF ((List.range a.n).map a.get)
+
+def opGenTshift : M String := do
+  let order ← int
+  let data ← fltArr
+  let shifts ← fltArr
+  return showOpt (Gen.timeshift (arrF data) (arrF shifts) order)
+
+def opGenDfShift : M String := do
+  let col ← fltArr
+  let fs ← flt
+  let seconds ← flt
+  return showOpt (Gen.df_timeshift_column (arrF col) fs seconds)
+
+def opGenDfMeta : M String := do
+  return s!"{Gen.df_timeshift_order} | {Gen.df_timeshift_numeric_kinds}"
+
 def dispatch (op : String) : Option (M String) :=
   match op with
+  | "gentshift" => some opGenTshift
+  | "gendfshift" => some opGenDfShift
+  | "gendfmeta" => some opGenDfMeta
   | _ => none
 
 end Drv.ExtTimeShift
